@@ -840,6 +840,8 @@ async def hostile_case(backend, seed, counters):
         probs = e2e.log_problems(srv.log_text())
         if probs:
             V("server-log", "the server's log shows: %s" % " | ".join(probs[:3]))
+        for k, n in e2e.log_notes(srv.log_text()).items():
+            bump(counters.setdefault("e2e_server_log_notes", {}), k, n)
     finally:
         for c in conns:
             await c.close()
